@@ -66,6 +66,11 @@ def valid_case(draw, tier):
     family = draw(st.sampled_from(["default", "default", "raw"]))
     doc = draw(gen_swc.swc_document(max_rows=max_rows, family=family, unicode_ok=unicode_ok))
     reset = draw(st.booleans()) if family == "default" else False
+    if family == "raw" and doc["root_first"] and draw(st.booleans()):
+        # arbitrary ids, root in the first row: re-basing shifts every id and parent id by the root id (ids may go
+        # negative); only a file in which some id equals root - 1 would make the -1 marker ambiguous
+        root = doc["rows"][0]["id"]
+        reset = all(r["id"] != root - 1 for r in doc["rows"])
     return {"doc": doc, "kind": kind, "encoding": encoding, "reset_index": reset}
 
 
@@ -80,6 +85,8 @@ def run_valid(case, ctx):
     src, kw = _source(text, case["kind"], case["encoding"], ctx)
     ctx.cls("src:" + case["kind"], "enc:" + case["encoding"], "family:" + doc["family"],
             "reset" if case["reset_index"] else "noreset")
+    if case["reset_index"] and doc["family"] == "raw":
+        ctx.cls("reset-with-arbitrary-ids")
     for f in doc["features"]:
         ctx.cls("feat:" + f)
     if doc["n_req"]:
@@ -217,7 +224,9 @@ def run_malformed(case, ctx):
             "src:" + case["kind"])
     for c in classes:
         if c.startswith("bad-token-field"):
-            ctx.cls("badfield:" + c[-1])
+            ctx.cls("badfield:" + c[len("bad-token-field")])
+        if c.endswith("-hash"):
+            ctx.cls("inj:hash-sign-inside-a-row")
     if before == 0:
         ctx.cls("bad-before-any-row")
     if after == 0:
@@ -368,14 +377,14 @@ def run_raw(case, ctx):
 
 
 SUBCHECKS = [
-    Sub("valid", valid_case, run_valid, quick=300, thorough=6000, shards_quick=3,
+    Sub("valid", valid_case, run_valid, quick=900, thorough=6000, shards_quick=3,
         required={"src:str": 10, "src:bytes": 10, "src:path": 5, "feat:exponent": 20,
                   "feat:crlf": 5, "feat:unrequested-extra": 5, "requested-extras": 10,
-                  "enc:utf-16": 2, "enc:detect": 2, "reset": 10, "family:raw": 10}),
-    Sub("malformed", malformed_case, run_malformed, quick=300, thorough=6000, shards_quick=3,
+                  "enc:utf-16": 2, "enc:detect": 2, "reset": 10, "family:raw": 10, "reset-with-arbitrary-ids": 8}),
+    Sub("malformed", malformed_case, run_malformed, quick=900, thorough=6000, shards_quick=3,
         required={"inj:short-line": 20, "inj:bad-token": 20, "inj:bad-byte": 10,
-                  "api:Population": 5, "api:Tree.from_swc": 10}),
-    Sub("sorted", sorted_case, run_sorted, quick=200, thorough=4000, shards_quick=2,
+                  "api:Population": 5, "api:Tree.from_swc": 10, "inj:hash-sign-inside-a-row": 10}),
+    Sub("sorted", sorted_case, run_sorted, quick=600, thorough=4000, shards_quick=2,
         required={"unsorted": 20, "root-not-first": 20}),
     # Atheris / libFuzzer, thorough tier (the line matcher is a C regular expression: little coverage gradient inside it,
     # the structured targets mainly add volume, the raw target explores line / encoding / option handling)
